@@ -111,11 +111,21 @@ impl<'a> SubstLookup<'a> {
 
         let mut set_digest = hb_set_digest_t::new();
         let mut reverse = !subtables.is_empty();
+        let mut any_reverse = false;
 
         for subtable in &subtables {
             subtable.coverage().collect(&mut set_digest);
             reverse &= subtable.is_reverse();
+            any_reverse |= subtable.is_reverse();
         }
+
+        // An Extension lookup must not mix reverse chaining subtables with other types (HarfBuzz's
+        // sanitize rejects it): applied by the forward driver a reverse subtable never advances.
+        let subtables = if any_reverse && !reverse {
+            Vec::new()
+        } else {
+            subtables
+        };
 
         Self {
             subtables,
